@@ -23,6 +23,18 @@ static int nops[MAXT];
 static int nthr = 0;
 static struct thread th[MAXT];
 
+/* channel.c may log (a harmless change must not break the build of this harness) */
+void aq_logger(int is_error, const char* file, int line, const char* function, const char* fmt, ...) { (void)is_error; (void)file; (void)line; (void)function; (void)fmt; }
+
+/* data-level bookkeeping, independent of channel.c's fields (as in h_channel.c): the log index of the committed byte in
+   every ring cell, the pending write, a copy of every mapped slice.  Reported on "X" lines (not part of the lock-step
+   comparison) in h_channel's result format, so that the same C01/C02 oracle reads them. */
+static long long* shadow = 0;
+static long long L = 0;
+static long long wbeg = -1, wn = 0;
+static int g_wf = 0;   /* WF 1: keep the writer's script well formed -- skip commit/abort when the preceding write_map returned no region */
+static struct { long long off, len; unsigned char* copy; } held[MAXR];
+
 static void dump(char* buf, size_t n)
 {
     int o = snprintf(buf, n, " | S %zu %zu %zu %zu %d %u", ch.head, ch.high, ch.cycle, ch.mapped, (int)ch.is_accepting_writes, ch.holds.n);
@@ -39,6 +51,8 @@ static void run_script(void* arg)
     char d[512];
     for (int i = 0; i < nops[t]; ++i) {
         struct opx* o = &script[t][i];
+        if (g_wf && (o->k == 'c' || o->k == 'a') && wbeg < 0)
+            continue;
         vs_point("op");
         switch (o->k) {
             case 'w': {
@@ -46,20 +60,62 @@ static void run_script(void* arg)
                 dump(d, sizeof d);
                 if (p) vs_log("W region %lld%s", (long long)((unsigned char*)p - ch.data), d);
                 else vs_log("W %s%s", (size_t)o->a >= ch.capacity ? "toobig" : "refused", d);
+                if (p) {
+                    long long off = (unsigned char*)p - ch.data;
+                    if (off < 0 || off + o->a > (long long)ch.capacity) { printf("X %d w %lld => W region %lld OUTSIDE | S\n", t, o->a, off); fflush(stdout); exit(5); }
+                    wbeg = off; wn = o->a;
+                    memset(p, 0xEE, (size_t)o->a);   /* the writer may write at once */
+                    for (long long i = 0; i < o->a; ++i) shadow[off + i] = -1;
+                    printf("X %d w %lld => W region %lld | S\n", t, o->a, off);
+                } else
+                    printf("X %d w %lld => W %s | S\n", t, o->a, (size_t)o->a >= ch.capacity ? "toobig" : "refused");
                 break;
             }
-            case 'c': channel_write_unmap(&ch); dump(d, sizeof d); vs_log("U%s", d); break;
-            case 'a': channel_abort_write(&ch); dump(d, sizeof d); vs_log("U%s", d); break;
-            case 'A': channel_accept_writes(&ch, (uint32_t)o->a); dump(d, sizeof d); vs_log("U%s", d); break;
+            case 'c': {
+                size_t head0 = ch.head, mapped0 = ch.mapped;
+                if (wbeg >= 0) for (long long i = 0; i < wn; ++i) ch.data[wbeg + i] = (unsigned char)((L + i) % 251);
+                channel_write_unmap(&ch);
+                int committed = wbeg >= 0 && wn > 0 && mapped0 != head0 && ch.head == mapped0;
+                if (committed) { for (long long i = 0; i < wn; ++i) shadow[wbeg + i] = L + i; L += wn; }
+                printf("X %d %s => U committed=%d | S\n", t, wbeg >= 0 ? "c" : "c-nomap", committed);
+                wbeg = -1;
+                dump(d, sizeof d); vs_log("U%s", d); break;
+            }
+            case 'a': channel_abort_write(&ch); printf("X %d a => U | S\n", t); wbeg = -1; dump(d, sizeof d); vs_log("U%s", d); break;
+            case 'A': channel_accept_writes(&ch, (uint32_t)o->a); printf("X %d acc %lld => U | S\n", t, o->a); dump(d, sizeof d); vs_log("U%s", d); break;
             case 'r': {
+                int was_mapped = rdr[o->a].state == ChannelState_Mapped;
                 struct slice s = channel_read_map(&ch, &rdr[o->a]);
                 long long len = s.end - s.beg;
                 dump(d, sizeof d);
                 if (len > 0) vs_log("R %lld %lld%s", (long long)(s.beg - ch.data), len, d);
                 else vs_log("R - 0%s", d);
+                if (was_mapped) printf("X %d r %lld => R skip | S\n", t, o->a);
+                else if (len > 0) {
+                    long long off = s.beg - ch.data;
+                    int ok = off >= 0 && off + len <= (long long)ch.capacity;
+                    long long first = ok ? shadow[off] : -1;
+                    for (long long j = 0; ok && j < len; ++j)
+                        if (shadow[off + j] < 0 || shadow[off + j] != first + j || s.beg[j] != (unsigned char)(shadow[off + j] % 251)) ok = 0;
+                    printf("X %d r %lld => R %lld %lld first=%lld ok=%d notify=0 | S\n", t, o->a, off, len, first, ok);
+                    if (ok && !held[o->a].copy) {
+                        held[o->a].off = off; held[o->a].len = len; held[o->a].copy = malloc((size_t)len);
+                        memcpy(held[o->a].copy, s.beg, (size_t)len);
+                    }
+                } else
+                    printf("X %d r %lld => R - 0 first=-1 ok=1 notify=0 | S\n", t, o->a);
                 break;
             }
-            case 'u': channel_read_unmap(&ch, &rdr[o->a], (size_t)o->b); dump(d, sizeof d); vs_log("U%s", d); break;
+            case 'u': {
+                int stable = 1;
+                if (held[o->a].copy) {
+                    stable = memcmp(held[o->a].copy, ch.data + held[o->a].off, (size_t)held[o->a].len) == 0;
+                    free(held[o->a].copy); held[o->a].copy = 0;
+                }
+                channel_read_unmap(&ch, &rdr[o->a], (size_t)o->b);
+                printf("X %d u %lld %lld => U notify=0 stable=%d | S\n", t, o->a, o->b, stable);
+                dump(d, sizeof d); vs_log("U%s", d); break;
+            }
         }
     }
 }
@@ -87,6 +143,7 @@ int main(void)
         if (sscanf(line, "SEED %lld", &seed) == 1) continue;
         if (sscanf(line, "SPURIOUS %d", &spurious) == 1) continue;
         if (sscanf(line, "TRACE %d", &trace) == 1) continue;
+        if (sscanf(line, "WF %d", &g_wf) == 1) continue;
         if (!strncmp(line, "SCHED", 5) || !strncmp(line, "PREFIX", 6)) {
             mode = line[0] == 'S' ? 1 : 0;
             char* p = strchr(line, ' ');
@@ -125,7 +182,10 @@ int main(void)
     vs_on_stuck(on_stuck);
     channel_new(&ch, (size_t)cap);
     memset(rdr, 0, sizeof rdr);
-    for (int i = 0; i < nreaders; ++i) { struct slice s = channel_read_map(&ch, &rdr[i]); (void)s; }
+    shadow = malloc(sizeof(long long) * (size_t)(cap > 0 ? cap : 1));
+    for (long long i = 0; i < cap; ++i) shadow[i] = -1;
+    printf("X 0 new %lld => NEW\n", cap);
+    for (int i = 0; i < nreaders; ++i) { struct slice s = channel_read_map(&ch, &rdr[i]); (void)s; printf("X 0 r %d => R - 0 first=-1 ok=1 notify=0 | S\n", i); }
     for (int t = 0; t < nthr; ++t) { thread_init(&th[t]); thread_create(&th[t], run_script, (void*)(intptr_t)t); }
     for (int t = 0; t < nthr; ++t) thread_join(&th[t]);
     printf("END\n");
